@@ -29,6 +29,18 @@ RULE = ("(ip,len) pairs: ip from a boundary pool (0, 1, max, max-1, all-ones / s
         "Regions outside the model, never generated: lone surrogates; a trailing line feed can not survive strip(), so the "
         "'$ before final \\n' reading of the regexes is never exercised; arguments that are neither str nor int nor an address "
         "object; `strict=True`; `debug`. "
+        "Factory streams (one round per generated pair): _get_ipv4 / _get_ipv6 on a spelling the stdlib itself reads ('a', 'a/len', "
+        "'a/mask', 'a/hostmask'; every IPv6 address form + '/len'), on integers (0, 1, max, random, -1, max+1), on spellings only the "
+        "class reads (surrounding blanks, blank for the slash) and on one-edit neighbours, with stdlib=False and stdlib=True; "
+        "ip_factory with mode auto_detect / ipv4 / ipv6 (10% a wrong mode name) on IPv4 text, IPv6 text, integers and near misses; "
+        "check_valid_ipaddress on blank-wrapped IPv4 forms, IPv6 forms (FC11a) and near misses; all hand-written malformed texts go "
+        "through the three functions as well. Guard stream: every combination class of a wrong type for val / strict / stdlib / debug "
+        "and of a wrong mode name for the factories, a non-str argument for check_valid_ipaddress, and None / float / bytes / list / "
+        "tuple / object of the other family / debug='x' as constructor argument (exception class compared). Remaining value "
+        "properties (v4x / v6x stream, every generated pair in a random accepted spelling + hand-picked multicast / private / reserved / "
+        "link-local / mapped blocks): ipv4 / ipv6, _ip, masklen, masklength, prefixlength, packed, network_offset, max_int, "
+        "inverse_netmask, version, as_int, is_ipv4_mapped, the IPv6 members that always raise - compared with the model and the "
+        "stdlib - and is_multicast, is_private, is_reserved, is_link_local, is_site_local, is_unspecified - compared with the stdlib only. "
         "Every accepted case is checked three ways: implementation = model (all 19 / 18 derived values as one answer line), "
         "implementation = real `ipaddress` (oracle), and implementation against the Spec-level reading of the renderings written "
         "from the definitions of Spec/IP.lean (width / digits / value of as_zeropadded, as_zeropadded_network, as_hex, as_hex_tuple, "
@@ -59,6 +71,12 @@ LEVEL_TEXT = ("Theorems (Lean 4, all (ip,len), no size bound): every derived val
               "with the same values (binary_spec); str(n), '%x', '%b' are the shortest decimal / hex / binary writings for every natural "
               "number (shortest_numerals); the dotted quad is the four octets in shortest decimal joined by dots, '/len' appends len in shortest decimal (dotted_spec); the octets / groups are the base-256 / base-65536 digits of the address (octets_groups_value). "
               "as_cidr_addr / as_cidr_net / numhosts / as_decimal* were already part of v4_values_agree / v6_values_agree. "
+              "Factories: _get_ipv4 / _get_ipv6 return exactly the constructor's object, for exactly the values the stdlib reads and the "
+              "constructor accepts, every failure is AddressValueError (factory_is_constructor); with stdlib=True the stdlib address of a "
+              "host route, else obj.network without the host bits (factory_stdlib); ip_factory dispatches on ':' / the mode name, refuses "
+              "an integer in auto_detect and a wrong mode (ip_factory_dispatch); check_valid_ipaddress answers (stripped text, 4) iff "
+              "IPv4Obj accepts the stripped text and never family 6 (check_valid_spec - the code as it is, known finding FC11a); the "
+              "argument guards (guards_spec); the remaining value properties of both families (v4_extra_values, v6_extra_values). "
               "The model (its re-implementation of the stdlib parsing routines and of "
               "the two regexes included) is tied to the code by differential runs on every check, and the implementation's answers are "
               "compared to the real `ipaddress` module independently.")
@@ -73,7 +91,9 @@ ASSUMPTIONS = [
     "ipaddress (CPython 3.12) parsing/rendering is re-implemented in the model; agreement measured by three-way correspondence",
     "the IPv4 / IPv6 regexes are hand-written automata; agreement with Python's `re` measured on every generated string",
     "int(s) / int(s,16) in the as_decimal* properties only ever see canonical digit strings; the model covers ASCII digits, sign, blanks",
-    "strict=False (the default); typeguard / non-(str,int,object) arguments not covered",
+    "strict=False (the default)",
+    "the classification predicates (is_multicast, is_private, is_reserved, is_link_local, is_site_local, is_unspecified) are pass-throughs "
+    "to the stdlib network object; they are compared with the real `ipaddress` by the oracle, not modelled in Lean",
 ]
 TRUSTED = ["model of ipaddress (stdlib) and of the two address regexes: modelled, not verified"]
 
@@ -90,7 +110,73 @@ def mk(op, arg, truth=None, origin="gen", near=False):
             "req": req, "_origin": origin}
 
 
+def _val_fields(arg):
+    return ("i", str(int(arg))) if isinstance(arg, int) and not isinstance(arg, bool) else ("s", wire.enc_str(arg))
+
+
+def mk_get(fam, arg, stdlib, truth=None, origin="gen", near=False):
+    """_get_ipv4 / _get_ipv6 (val=arg, stdlib=stdlib); arg a str or an int"""
+    k, a = _val_fields(arg)
+    return {"op": "get%d" % fam, "arg": arg if isinstance(arg, str) else int(arg), "stdlib": bool(stdlib), "truth": truth, "near": near,
+            "req": wire.req("iptextx", "get%d" % fam, k, a, "T" if stdlib else "F"), "_origin": origin}
+
+
+def mk_fac(arg, stdlib, mode, truth=None, origin="gen", near=False):
+    """ip_factory(val=arg, stdlib=stdlib, mode=mode)"""
+    k, a = _val_fields(arg)
+    return {"op": "fac", "arg": arg if isinstance(arg, str) else int(arg), "stdlib": bool(stdlib), "mode": mode, "truth": truth,
+            "near": near, "req": wire.req("iptextx", "fac", k, a, "T" if stdlib else "F", wire.enc_str(mode)), "_origin": origin}
+
+
+def mk_chk(text, truth=None, origin="gen", near=False):
+    """check_valid_ipaddress(text); truth = [family, ip, len]"""
+    return {"op": "chk", "arg": text, "truth": truth, "near": near,
+            "req": wire.req("iptextx", "chk", wire.enc_str(text)), "_origin": origin}
+
+
+def mk_guard(fn, flags, mode=None, origin="gen"):
+    """the argument guards: fn in get4|get6|fac; flags = [val ok, strict ok (get only), stdlib ok, debug ok]"""
+    tfs = ["T" if f else "F" for f in flags]
+    if fn == "fac":
+        req = wire.req("iptextx", "guardfac", tfs[0], wire.enc_str(mode), tfs[2], tfs[3])
+    elif fn == "chk":
+        req = wire.req("iptextx", "guardchk", tfs[0])
+    else:
+        req = wire.req("iptextx", "guardget", *tfs)
+    return {"op": "guard", "fn": fn, "flags": [bool(f) for f in flags], "mode": mode, "arg": fn, "truth": None, "near": False,
+            "req": req, "_origin": origin}
+
+
+CTOR_TAGS = {"none": "none", "float": "foreign", "bytes": "foreign", "list": "foreign", "tuple": "foreign", "otherobj": "foreign",
+             "baddebug": "baddebug"}
+
+
+def mk_ctor(fam, tag, origin="gen"):
+    """IPv4Obj(x) / IPv6Obj(x) for an argument that is no str / int / object of the family"""
+    return {"op": "ctor", "fam": fam, "tag": tag, "arg": tag, "truth": None, "near": False,
+            "req": wire.req("iptextx", "ctor", CTOR_TAGS[tag]), "_origin": origin}
+
+
+def mk_x(fam, text, truth=None, origin="gen", near=False):
+    """the remaining value properties of the object built from a text"""
+    return {"op": "v%dx" % fam, "arg": text, "truth": truth, "near": near,
+            "req": wire.req("iptextx", "v%dx" % fam, wire.enc_str(text)), "_origin": origin}
+
+
 def from_corpus(c):
+    op = c["op"]
+    if op in ("get4", "get6"):
+        return mk_get(int(op[3]), c["arg"], c["stdlib"], c.get("truth"), "corpus", c.get("near", False))
+    if op == "fac":
+        return mk_fac(c["arg"], c["stdlib"], c["mode"], c.get("truth"), "corpus", c.get("near", False))
+    if op == "chk":
+        return mk_chk(c["arg"], c.get("truth"), "corpus", c.get("near", False))
+    if op == "guard":
+        return mk_guard(c["fn"], c["flags"], c.get("mode"), "corpus")
+    if op == "ctor":
+        return mk_ctor(c["fam"], c["tag"], "corpus")
+    if op in ("v4x", "v6x"):
+        return mk_x(int(op[1]), c["arg"], c.get("truth"), "corpus", c.get("near", False))
     return mk(c["op"], c["arg"], c.get("truth"), "corpus", c.get("near", False))
 
 
@@ -313,9 +399,142 @@ def cases(rng, tier):
         if rng.random() < 0.1:
             yield mk("v4i", rng.choice([-1, V4MAX + 1, rng.getrandbits(40), -rng.getrandbits(20)]))
             yield mk("v6i", rng.choice([-1, V6MAX + 1, rng.getrandbits(140), -rng.getrandbits(20)]))
+    # factories (_get_ipv4, _get_ipv6, ip_factory, check_valid_ipaddress), argument guards, remaining value properties
+    if tier != "search":
+        yield from fixed_extra_cases()
+    for _ in range({"quick": 700, "thorough": 14000, "search": 300}[tier]):
+        yield from extra_cases(rng, p4, p6)
+
+
+MODES = ["auto_detect", "auto_detect", "auto_detect", "ipv4", "ipv6"]
+BAD_MODES = ["", "auto", "IPv4", "ipv46", "AUTO_DETECT", " ipv4"]
+
+
+def v4_exact_forms(rng, ip, ln):
+    """the spellings the stdlib itself reads (no blanks): what _get_ipv4 lets through"""
+    a = dotted(ip)
+    out = [a + "/" + str(ln), a + "/" + dotted((V4MAX << (32 - ln)) & V4MAX)]
+    if 0 < ln < 32:
+        out.append(a + "/" + dotted(V4MAX >> ln))
+    if ln == 32:
+        out.append(a)
+    return out
+
+
+def v6_exact_forms(rng, ip, ln):
+    out = []
+    for a in v6_addr_forms(rng, ip):
+        out.append(a + "/" + str(ln))
+        if ln == 128:
+            out.append(a)
+    return out
+
+
+def extra_cases(rng, p4, p6):
+    """one round of the streams added for the factories, the guards and the remaining value properties"""
+    ip4, ln4 = pick_pair(rng, p4, V4LENS, 32)
+    ip6, ln6 = pick_pair(rng, p6, V6LENS, 128)
+    f4, f6 = v4_exact_forms(rng, ip4, ln4), v6_exact_forms(rng, ip6, ln6)
+    f6 = [f for f in f6 if norm_len(f) <= 49] or [str(ipaddress.IPv6Address(ip6)) + "/" + str(ln6)]
+    st = rng.random() < 0.5
+    # _get_ipv4 / _get_ipv6: a spelling the stdlib reads, an integer, a spelling only the class reads, one edit away
+    yield mk_get(4, rng.choice(f4), st, [ip4, ln4])
+    yield mk_get(6, rng.choice(f6), st, [ip6, ln6])
+    r = rng.random()
+    if r < 0.25:
+        n = rng.choice([0, 1, V4MAX, ip4])
+        yield mk_get(4, n, not st, [n, 32])
+        n = rng.choice([0, 1, V6MAX, ip6])
+        yield mk_get(6, n, not st, [n, 128])
+    elif r < 0.35:
+        yield mk_get(4, rng.choice([-1, V4MAX + 1, -ip4 - 1, ip6 | (1 << 32)]), st)
+        yield mk_get(6, rng.choice([-1, V6MAX + 1, -ip6 - 1]), st)
+    elif r < 0.6:
+        yield mk_get(4, wrap(rng, rng.choice(v4_forms(rng, ip4, ln4))), st, near=True)
+        yield mk_get(6, wrap(rng, rng.choice(v6_forms(rng, ip6, ln6))), st, near=True)
+    else:
+        yield mk_get(4, one_edit(rng, rng.choice(f4)), st, near=True)
+        yield mk_get(6, one_edit(rng, rng.choice(f6)), st, near=True)
+    # ip_factory
+    mode = rng.choice(MODES) if rng.random() < 0.9 else rng.choice(BAD_MODES)
+    which = rng.random()
+    if which < 0.4:
+        arg, truth = rng.choice(f4), ([ip4, ln4] if mode in ("auto_detect", "ipv4") else None)
+    elif which < 0.8:
+        arg, truth = rng.choice(f6), ([ip6, ln6] if mode in ("auto_detect", "ipv6") else None)
+    elif which < 0.9:
+        n = rng.choice([0, 1, ip4, V4MAX])
+        arg, truth = n, ([n, 32] if mode == "ipv4" else [n, 128] if mode == "ipv6" else None)
+    else:
+        arg, truth = one_edit(rng, rng.choice(f4 + f6)), None
+    yield mk_fac(arg, rng.random() < 0.4, mode, truth, near=truth is None)
+    # check_valid_ipaddress
+    r = rng.random()
+    if r < 0.45:
+        yield mk_chk(wrap(rng, rng.choice(v4_forms(rng, ip4, ln4))), [4, ip4, ln4])
+    elif r < 0.7:
+        f = rng.choice(v6_forms(rng, ip6, ln6))
+        yield mk_chk(wrap(rng, f), [6, ip6, ln6] if norm_len(f) <= 49 else None, near=norm_len(f) > 49)
+    else:
+        yield mk_chk(one_edit(rng, rng.choice(v4_forms(rng, ip4, ln4) + f6)), near=True)
+    # the remaining value properties
+    yield mk_x(4, wrap(rng, rng.choice(v4_forms(rng, ip4, ln4))), [ip4, ln4])
+    f = rng.choice(v6_forms(rng, ip6, ln6))
+    yield mk_x(6, wrap(rng, f), [ip6, ln6] if norm_len(f) <= 49 else None, near=norm_len(f) > 49)
+
+
+def fixed_extra_cases():
+    for fn in ("get4", "get6"):
+        for flags in ([1, 1, 1, 1], [0, 1, 1, 1], [1, 0, 1, 1], [1, 1, 0, 1], [1, 1, 1, 0], [0, 0, 0, 0], [1, 0, 0, 1], [1, 1, 0, 0]):
+            yield mk_guard(fn, flags)
+    for mode in ["auto_detect", "ipv4", "ipv6"] + BAD_MODES:
+        for flags in ([1, 1, 1, 1], [0, 1, 1, 1], [1, 1, 0, 1], [1, 1, 1, 0], [0, 1, 0, 0], [1, 1, 0, 0]):
+            yield mk_guard("fac", flags, mode)
+    for fam in (4, 6):
+        for tag in CTOR_TAGS:
+            yield mk_ctor(fam, tag)
+    for bad in ("int", "none", "bytes", "float"):
+        yield mk_guard("chk", [0, 1, 1, 1], mode=bad)
+    yield mk_guard("chk", [1, 1, 1, 1])
+    for t in HAND4:
+        yield mk_get(4, t, False, near=True)
+        yield mk_chk(t, near=True)
+        yield mk_fac(t, False, "auto_detect", near=True)
+    for t in HAND6:
+        yield mk_get(6, t, False, near=True)
+        yield mk_chk(t, near=True)
+        yield mk_fac(t, True, "auto_detect", near=True)
+    # special-purpose blocks for the classification properties (multicast, private, reserved, link local, mapped …)
+    for t in ["224.0.0.1/4", "239.255.255.255/32", "10.0.0.1/8", "172.16.5.5/12", "192.168.1.1/16", "240.0.0.1/4", "127.0.0.1/8",
+              "169.254.1.1/16", "100.64.0.1/10", "8.8.8.8/32", "0.0.0.0/0", "255.255.255.255/32", "10.255.255.254/31", "11.0.0.0/7"]:
+        yield mk_x(4, t)
+    for t in ["ff02::1/8", "fe80::1/10", "fec0::1/10", "::/128", "::/0", "::1/128", "::ffff:1.2.3.4/96", "::ffff:1.2.3.4/128", "::fffe:1.2.3.4/96",
+              "1::ffff:1.2.3.4/128", "fc00::1/7", "2001::1/32", "2002:102:304::1/16", "2001:db8::1/32", "64:ff9b::1.2.3.4/96", "ffff::/16"]:
+        yield mk_x(6, t)
 
 
 def neighbours(case, rng):
+    if case["op"] in ("guard", "ctor"):
+        return
+    if case["op"] in ("get4", "get6", "fac", "chk", "v4x", "v6x"):
+        if not isinstance(case["arg"], str):
+            for d in range(-3, 4):
+                if case["op"] == "fac":
+                    yield mk_fac(case["arg"] + d, case["stdlib"], case["mode"])
+                else:
+                    yield mk_get(int(case["op"][3]), case["arg"] + d, case["stdlib"])
+            return
+        for _ in range(300):
+            t = one_edit(rng, case["arg"])
+            if case["op"] in ("get4", "get6"):
+                yield mk_get(int(case["op"][3]), t, rng.random() < 0.5, near=True)
+            elif case["op"] == "fac":
+                yield mk_fac(t, rng.random() < 0.5, case["mode"], near=True)
+            elif case["op"] == "chk":
+                yield mk_chk(t, near=True)
+            else:
+                yield mk_x(int(case["op"][1]), t, near=True)
+        return
     if case["op"] in ("v4i", "v6i"):
         n = int(case["arg"])
         for d in range(-3, 4):
@@ -326,17 +545,41 @@ def neighbours(case, rng):
 
 
 def nontrivial(case):
+    if case["op"] in ("guard", "ctor"):
+        return True
+    if case["op"] == "chk":
+        return bool(case["truth"]) or bool(case.get("near"))
     if case["truth"]:
-        w = 32 if case["op"].startswith("v4") else 128
-        return case["truth"][1] < w
+        w = 32 if case["op"] in ("v4s", "v4c", "v4i", "v4x", "get4") else 128
+        return case["truth"][1] < w or case["op"] in ("get4", "get6", "fac")
     return bool(case.get("near"))
 
 
 def describe(case):
-    return {"op": case["op"], "arg": case["arg"], "truth": case["truth"]}
+    d = {"op": case["op"], "arg": case["arg"], "truth": case["truth"]}
+    for k in ("stdlib", "mode", "fn", "flags", "fam", "tag"):
+        if k in case:
+            d[k] = case[k]
+    return d
 
 
 def buckets(case, ans):
+    if case["op"] in ("get4", "get6", "fac", "chk", "guard", "ctor", "v4x", "v6x"):
+        head = ans.split("|")[0]
+        out = ["op:" + case["op"], "%s:%s" % (case["op"], head)]
+        if case["op"] in ("get4", "get6", "fac"):
+            out.append("%s:%s:stdlib=%s:%s" % (case["op"], "int" if not isinstance(case["arg"], str) else "str", case["stdlib"], head))
+        if case["op"] == "fac":
+            out.append("fac:mode=%s:%s" % (case["mode"] if case["mode"] in ("auto_detect", "ipv4", "ipv6") else "other", head))
+        if case["op"] == "chk" and case["truth"]:
+            out.append("chk:valid-v%d:%s" % (case["truth"][0], head))
+        if case["op"] == "guard":
+            out.append("guard:%s:%s:%s" % (case["fn"], "".join("1" if f else "0" for f in case["flags"]), ans))
+        if case["op"] == "ctor":
+            out.append("ctor:v%d:%s:%s" % (case["fam"], case["tag"], ans))
+        if case.get("near"):
+            out.append("near-valid:" + case["op"])
+        return out
     out = ["op:" + case["op"], "answer:" + (ans if ans.startswith("err") else "ok")]
     if case["truth"]:
         w = 32 if case["op"].startswith("v4") else 128
@@ -391,10 +634,93 @@ def _show6(o):
     ])
 
 
+def _show_ret(r):
+    from ciscoconfparse2.ccp_util import IPv4Obj, IPv6Obj
+    if isinstance(r, IPv4Obj):
+        return _show4(r)
+    if isinstance(r, IPv6Obj):
+        return _show6(r)
+    if isinstance(r, ipaddress.IPv4Address):
+        return "addr4|%d" % int(r)
+    if isinstance(r, ipaddress.IPv6Address):
+        return "addr6|%d" % int(r)
+    if isinstance(r, ipaddress.IPv4Network):
+        return "net4|%d/%d" % (int(r.network_address), r.prefixlen)
+    if isinstance(r, ipaddress.IPv6Network):
+        return "net6|%d/%d" % (int(r.network_address), r.prefixlen)
+    return "other:" + type(r).__name__
+
+
+def _tf(b):
+    return "T" if b is True else "F" if b is False else "other:" + type(b).__name__
+
+
+def _extra(o, fam):
+    s = [str(int(o.ipv4 if fam == 4 else o.ipv6)), _p(lambda: str(int(o._ip))), str(o.masklen), str(o.masklength), str(o.prefixlength),
+         wire.enc_nats(list(o.packed)), _p(lambda: str(o.network_offset)), str(o.max_int), str(int(o.inverse_netmask)),
+         str(o.version), _p(lambda: str(o.as_int if fam == 4 else o.as_int()))]
+    if fam == 6:
+        s.append(_tf(o.is_ipv4_mapped))
+        for name in ("broadcast", "as_decimal_broadcast", "teredo", "sixtofour"):
+            s.append(_p(lambda name=name: "value:" + str(getattr(o, name))))
+    # compared with the stdlib by the oracle only (classification tables of `ipaddress` are not modelled)
+    tail = [_tf(o.is_multicast), _tf(o.is_private), _tf(o.is_reserved)]
+    if fam == 6:
+        tail += [_tf(o.is_link_local), _tf(o.is_site_local), _tf(o.is_unspecified)]
+    return "ok|" + "|".join(s) + "|#|" + "|".join(tail)
+
+
+def impl_extra(case):
+    from ciscoconfparse2.ccp_util import IPv4Obj, IPv6Obj, _get_ipv4, _get_ipv6, ip_factory, check_valid_ipaddress
+    op, arg = case["op"], case["arg"]
+    try:
+        if op in ("get4", "get6"):
+            return _show_ret((_get_ipv4 if op == "get4" else _get_ipv6)(val=arg, stdlib=case["stdlib"]))
+        if op == "fac":
+            return _show_ret(ip_factory(val=arg, stdlib=case["stdlib"], mode=case["mode"]))
+        if op == "chk":
+            r = check_valid_ipaddress(arg)
+            return "ok|" + wire.enc_str(r[0]) + "|" + str(r[1])
+        if op == "guard":
+            ok_val = "::1" if case["fn"] == "get6" or case.get("mode") == "ipv6" else "1.2.3.4"
+            f = case["flags"]
+            kw = {"val": ok_val if f[0] else 1.5, "stdlib": False if f[2] else 0, "debug": 0 if f[3] else "x"}
+            if case["fn"] == "chk":
+                check_valid_ipaddress("1.2.3.4" if f[0] else {"int": 16909060, "none": None, "bytes": b"1.2.3.4", "float": 1.5}[case["mode"]])
+            elif case["fn"] == "fac":
+                kw["mode"] = case["mode"]
+                ip_factory(**kw)
+            else:
+                kw["strict"] = False if f[1] else "x"
+                (_get_ipv4 if case["fn"] == "get4" else _get_ipv6)(**kw)
+            return "pass"
+        if op == "ctor":
+            cls, other = (IPv4Obj, IPv6Obj) if case["fam"] == 4 else (IPv6Obj, IPv4Obj)
+            tag = case["tag"]
+            if tag == "baddebug":
+                o = cls("1.2.3.4" if case["fam"] == 4 else "::1", debug="x")
+            else:
+                o = cls({"none": None, "float": 1.5, "bytes": b"1.2.3.4", "list": ["1.2.3.4"], "tuple": ("::1",),
+                         "otherobj": other("::1" if case["fam"] == 4 else "1.2.3.4")}[tag])
+            return "empty" if o.empty is True and o.ip_object is None and o.network_object is None else "built:" + repr(o)
+        fam = int(op[1])
+        return _extra((IPv4Obj if fam == 4 else IPv6Obj)(arg), fam)
+    except Exception as e:  # noqa: BLE001  the class name is the answer
+        return "err:" + type(e).__name__
+
+
+def compare(case, impl_ans, model_ans):
+    if case["op"] in ("v4x", "v6x"):
+        return impl_ans.split("|#|")[0] == model_ans
+    return impl_ans == model_ans
+
+
 def impl(case):
     quiet_ccp()
     from ciscoconfparse2.ccp_util import IPv4Obj, IPv6Obj
     op, arg = case["op"], case["arg"]
+    if op in ("get4", "get6", "fac", "chk", "guard", "ctor", "v4x", "v6x"):
+        return impl_extra(case)
     cls, show = (IPv4Obj, _show4) if op.startswith("v4") else (IPv6Obj, _show6)
     try:
         if op.endswith("i"):
@@ -546,6 +872,8 @@ def stdlib_reading(op, text):
 
 def oracle(case, ans):
     op = case["op"]
+    if op in ("get4", "get6", "fac", "chk", "guard", "ctor", "v4x", "v6x"):
+        return oracle_extra(case, ans)
     v4 = op.startswith("v4")
     truth = case["truth"]
     if op.endswith("i"):
@@ -565,14 +893,155 @@ def oracle(case, ans):
         if truth is not None:
             return [f"valid {op} input {case['arg']!r} (= {truth}) rejected with {ans}"]
         return []   # a text the stdlib can read but the class does not list among its forms: rejecting is allowed
+    return judge_values(v4, want, ans, case["arg"])
+
+
+def judge_values(v4, want, ans, arg):
+    """every derived value of an accepted object against the real `ipaddress` and the Spec-level reading"""
+    if not ans.startswith("ok|"):
+        return [f"{arg!r} did not give an address object but {ans[:60]}"]
     exp = (expect4 if v4 else expect6)(*want)
     got = ans.split("|")[1:]
     fails = []
     for (name, e), g in zip(exp.items(), got):
         if e != g:
             show = lambda x: wire.dec_str(x) if x.startswith("s") and " " not in x else x  # noqa: E731
-            fails.append(f"{name}: {show(g)!r} but ipaddress gives {show(e)!r} for {case['arg']!r}")
+            fails.append(f"{name}: {show(g)!r} but ipaddress gives {show(e)!r} for {arg!r}")
     if len(got) != len(exp):
         fails.append("oracle-exc:field count")
     fails += spec_reading(v4, want[0], want[1], dict(zip(exp.keys(), got)))
     return fails[:3]
+
+
+def exact_reading(fam, arg):
+    """(ip, len) the standard library itself gives to the value (a str as it is: no stripping, no blank for the slash; or an
+    int), or None - the factories hand the value to IPv4Network / IPv6Network first"""
+    try:
+        i = ipaddress.IPv4Interface(arg) if fam == 4 else ipaddress.IPv6Interface(arg)
+    except (ValueError, TypeError):
+        return None
+    if getattr(i, "scope_id", None):
+        return None
+    return int(i.ip), i.network.prefixlen
+
+
+def oracle_get(fam, arg, stdlib, truth, ans, what):
+    want = exact_reading(fam, arg)
+    if truth is not None and (want is None or list(want) != list(truth)):
+        return [f"oracle-exc:generator truth {truth} differs from the stdlib reading {want} of {arg!r}"]
+    if want is None:
+        return [] if ans.startswith("err:") else [f"{what}: {arg!r} is not an IPv{fam} address for the standard library but gave {ans[:60]}"]
+    if ans.startswith("err:"):
+        return [f"{what}: valid IPv{fam} input {arg!r} (= {truth}) rejected with {ans}"] if truth is not None else []
+    if not stdlib:
+        head = ans.split("|")[0]
+        if head != "ok":
+            return [f"{what}: stdlib=False returned {head} instead of an address object"]
+        return judge_values(fam == 4, want, ans, arg)
+    w = 32 if fam == 4 else 128
+    ip, ln = want
+    net = ip >> (w - ln) << (w - ln)
+    exp = f"addr{fam}|{ip}" if ln == w else f"net{fam}|{net}/{ln}"
+    return [] if ans == exp else [f"{what}: stdlib=True returned {ans[:80]}, expected {exp} (the stdlib address of a host route, else the network)"]
+
+
+def oracle_chk(case, ans):
+    arg, truth = case["arg"], case["truth"]
+    r4, r6 = stdlib_reading("v4s", arg), stdlib_reading("v6s", arg)
+    if truth is not None:
+        fam, ip, ln = truth
+        r = r4 if fam == 4 else r6
+        if r is None or list(r) != [ip, ln]:
+            return [f"oracle-exc:generator truth {truth} differs from the stdlib reading {r} of {arg!r}"]
+        exp = "ok|" + wire.enc_str(arg.strip()) + "|" + str(fam)
+        if ans == exp:
+            return []
+        if ans.startswith("err:"):
+            return [f"check_valid_ipaddress rejects the valid IPv{fam} address {arg!r} (= {ip}/{ln}) with {ans}"]
+        return [f"check_valid_ipaddress({arg!r}) gives {ans[:80]}, expected the stripped text and family {fam}"]
+    if r4 is None and r6 is None:
+        return [] if ans.startswith("err:") else [f"check_valid_ipaddress accepts {arg!r}, which is no address: {ans[:60]}"]
+    if ans.startswith("err:"):
+        return []       # readable by the stdlib but not among the forms of the classes: rejecting is allowed
+    fam = ans.split("|")[-1]
+    if (fam == "4" and r4 is None) or (fam == "6" and r6 is None) or fam not in ("4", "6"):
+        return [f"check_valid_ipaddress({arg!r}) reports family {fam}, the standard library reads it as {'IPv4' if r4 else 'IPv6'}"]
+    return []
+
+
+V_MAX = {4: V4MAX, 6: V6MAX}
+
+
+def oracle_x(case, ans):
+    fam = int(case["op"][1])
+    w = 32 if fam == 4 else 128
+    truth, arg = case["truth"], case["arg"]
+    want = stdlib_reading("v%ds" % fam, arg)
+    if truth is not None and (want is None or list(want) != list(truth)):
+        return [f"oracle-exc:generator truth {truth} differs from the stdlib reading {want} of {arg!r}"]
+    if want is None:
+        return [] if ans.startswith("err:") else [f"invalid text {arg!r} accepted: {ans[:60]}"]
+    if ans.startswith("err:"):
+        return [f"valid input {arg!r} (= {truth}) rejected with {ans}"] if truth is not None else []
+    ip, ln = want
+    body, _, tail = ans.partition("|#|")
+    f = body.split("|")[1:]
+    net = (ipaddress.IPv4Network if fam == 4 else ipaddress.IPv6Network)((ip, ln), strict=False)
+    addr = ipaddress.ip_address(ip) if fam == 4 else ipaddress.IPv6Address(ip)
+    exp = {"ipv%d" % fam: str(ip), "_ip": str(ip), "masklen": str(ln), "masklength": str(ln), "prefixlength": str(ln),
+           "packed": wire.enc_nats(list(addr.packed)), "network_offset": str(ip - int(net.network_address)),
+           "max_int": str(V_MAX[fam]), "inverse_netmask": str(int(net.hostmask)), "version": str(fam), "as_int": str(ip)}
+    fails = []
+    for (name, e), g in zip(exp.items(), f):
+        if name == "network_offset" and g.startswith("exc:"):
+            continue        # C13's business: the getter raises on the last address of a block of four or more
+        if e != g:
+            fails.append(f"{name} of {arg!r} is {g}, the standard library says {e}")
+    if len(f) < len(exp):
+        fails.append("oracle-exc:field count")
+    names = ["is_multicast", "is_private", "is_reserved"] + (["is_link_local", "is_site_local", "is_unspecified"] if fam == 6 else [])
+    for name, g in zip(names, tail.split("|")):
+        e = _tf(getattr(net, name))
+        if e != g:
+            fails.append(f"{name} of {arg!r} is {g}, ipaddress says {e} for the network {net}")
+    if fam == 6:
+        e = _tf(addr.ipv4_mapped is not None)
+        if f[len(exp)] != e:
+            fails.append(f"is_ipv4_mapped of {arg!r} is {f[len(exp)]}, ipaddress says {e}")
+    return fails[:3]
+
+
+def oracle_extra(case, ans):
+    op = case["op"]
+    if op in ("get4", "get6"):
+        return oracle_get(int(op[3]), case["arg"], case["stdlib"], case["truth"], ans, "_get_ipv%s" % op[3])
+    if op == "fac":
+        mode, arg = case["mode"], case["arg"]
+        if mode == "auto_detect":
+            if not isinstance(arg, str):
+                return []       # an integer has no family: the property is silent (the code refuses it)
+            fam = 6 if ":" in arg else 4
+        elif mode in ("ipv4", "ipv6"):
+            fam = int(mode[3])
+        else:
+            return [] if ans.startswith("err:") else [f"ip_factory accepted mode {mode!r}: {ans[:60]}"]
+        return oracle_get(fam, arg, case["stdlib"], case["truth"], ans, f"ip_factory(mode={mode!r})")
+    if op == "chk":
+        return oracle_chk(case, ans)
+    if op == "guard":
+        good = all(case["flags"][i] for i in ((0,) if case["fn"] == "chk" else (0, 2, 3) if case["fn"] == "fac" else (0, 1, 2, 3))) and \
+            (case["fn"] != "fac" or case["mode"] in ("auto_detect", "ipv4", "ipv6"))
+        if good:
+            return [] if ans == "pass" else [f"{case['fn']} with well-typed arguments raised {ans}"]
+        return [] if ans.startswith("err:") else [f"{case['fn']} accepted ill-typed arguments {case['flags']} mode={case['mode']!r}"]
+    if op == "ctor":
+        if case["tag"] == "none":
+            return []       # the empty object: the property is about addresses
+        return [] if ans.startswith("err:") else [f"IPv{case['fam']}Obj accepted a {case['tag']} argument: {ans[:60]}"]
+    return oracle_x(case, ans)
+
+
+def known_id(case, failure):
+    if case["op"] == "chk" and failure.startswith("check_valid_ipaddress rejects the valid IPv6 address"):
+        return "FC11a"
+    return None
